@@ -617,6 +617,8 @@ impl Wal {
             .writer
             .flush()
             .wrap_err("failed to flush WAL segment after truncate")?;
+        #[cfg(kahflane_turdb_verif)]
+        crate::verif::crash_point("wal.truncate.set_len");
 
         segment.offset = 0;
 
@@ -630,6 +632,8 @@ impl Wal {
         *mmap = None;
 
         self.cleanup_old_segments()?;
+        #[cfg(kahflane_turdb_verif)]
+        crate::verif::crash_point("wal.truncate.cleaned");
 
         self.reset_frame_count();
 
@@ -660,6 +664,8 @@ impl Wal {
                     if segment_num < current_sequence {
                         let path = entry.path();
                         let _ = remove_file(&path);
+                        #[cfg(kahflane_turdb_verif)]
+                        crate::verif::crash_point("wal.cleanup.removed");
                     }
                 }
             }
@@ -977,6 +983,8 @@ impl Wal {
 
         *segment_guard = new_segment;
         drop(segment_guard);
+        #[cfg(kahflane_turdb_verif)]
+        crate::verif::crash_point("wal.rotate");
 
         // Add old to closed segments
         let mut closed = self.closed_segments.lock();
@@ -1060,14 +1068,20 @@ impl WalSegment {
         use std::io::Write;
 
         let header_bytes = header.as_bytes();
+        #[cfg(kahflane_turdb_verif)]
+        crate::verif::crash_point("wal.frame.pre");
 
         self.writer
             .write_all(header_bytes)
             .wrap_err("failed to write WAL frame header")?;
+        #[cfg(kahflane_turdb_verif)]
+        crate::verif::crash_point("wal.frame.mid");
 
         self.writer
             .write_all(page_data)
             .wrap_err("failed to write WAL frame page data")?;
+        #[cfg(kahflane_turdb_verif)]
+        crate::verif::crash_point("wal.frame.post");
 
         if sync {
             self.writer
@@ -1077,6 +1091,11 @@ impl WalSegment {
                 .get_mut()
                 .sync_data()
                 .wrap_err("failed to sync WAL frame to disk")?;
+            #[cfg(kahflane_turdb_verif)]
+            {
+                crate::verif::synced(&self.path);
+                crate::verif::crash_point("wal.frame.synced");
+            }
         }
 
         self.offset += (WAL_FRAME_HEADER_SIZE + PAGE_SIZE) as u64;
@@ -1084,11 +1103,28 @@ impl WalSegment {
         Ok(())
     }
 
+    #[allow(unreachable_code)]
     pub fn sync_to_disk(&mut self) -> Result<()> {
         use std::io::Write;
+        #[cfg(kahflane_turdb_verif)]
+        crate::verif::crash_point("wal.sync.before");
         self.writer
             .flush()
             .wrap_err("failed to flush WAL buffer")?;
+        #[cfg(kahflane_turdb_verif)]
+        {
+            crate::verif::crash_point("wal.sync.flushed");
+            let r = self
+                .writer
+                .get_mut()
+                .sync_data()
+                .wrap_err("failed to sync WAL segment to disk");
+            if r.is_ok() {
+                crate::verif::synced(&self.path);
+            }
+            crate::verif::crash_point("wal.sync.after");
+            return r;
+        }
         self.writer
             .get_mut()
             .sync_data()
